@@ -934,7 +934,12 @@ fn gen_stmt(g: &mut Gen, in_names: &[String], depth: usize) -> Option<Stmt> {
         }
         7 if o.w_self_send > 0 => Stmt::SendSelf(format!("x{}.u{}", 1 + g.rng.below(2), m)),
         8 if o.w_raise > 0 => Stmt::SendInternal(format!("r{}.u{}", 1 + g.rng.below(3), m)),
-        9 => Stmt::Log(Expr::Add(format!("v{}", g.rng.below(3)), 1)),
+        9 => match g.rng.below(4) {
+            // structured and string values are legal results of <log> / <script> as well
+            0 => Stmt::Log(Expr::Raw(format!("[v{}, 2]", g.rng.below(3)), 0)),
+            1 => Stmt::Script(Expr::Raw(format!("[v{}, [1, 'x']]", g.rng.below(3)), 0)),
+            _ => Stmt::Log(Expr::Add(format!("v{}", g.rng.below(3)), 1)),
+        },
         10 | 11 if o.w_errors > 0 && g.rng.chance(o.w_errors, 8) => match g.rng.below(8) {
             0 => Stmt::AssignUndeclared,
             1 => Stmt::Assign("v0".to_string(), Expr::Bad),
